@@ -195,14 +195,31 @@ func padWorld(mode Mode, opt WorldOpt) *World {
 		if w.ToolHook != nil {
 			w.ToolHook(ctx, ToolSpec{Name: "pad"}, req)
 		}
+		if ask, _ := req.Params.Arguments["ask"].(bool); ask {
+			// a server-issued request written while responses are being written (nobody answers it; it ends with the case)
+			rctx, cancel := context.WithTimeout(ctx, 300*time.Millisecond)
+			go func() {
+				defer cancel()
+				switch srv := mcp.GetServerFromContext(ctx).(type) {
+				case *mcp.StdioServer:
+					srv.ListRoots(rctx)
+				case *mcp.Server:
+					srv.ListRoots(rctx)
+				case *mcp.SSEServer:
+					srv.ListRoots(rctx)
+				}
+			}()
+		}
 		return mcp.NewTextResult(n + "|" + p), nil
 	})
 	return w
 }
 
-func padRequest(id string, nonce, pad string) []byte {
+func padRequest(id string, nonce, pad string) []byte { return padRequestAsk(id, nonce, pad, false) }
+
+func padRequestAsk(id string, nonce, pad string, ask bool) []byte {
 	b, _ := json.Marshal(map[string]interface{}{"jsonrpc": "2.0", "id": json.RawMessage(id), "method": "tools/call",
-		"params": map[string]interface{}{"name": "pad", "arguments": map[string]interface{}{"nonce": nonce, "pad": pad}}})
+		"params": map[string]interface{}{"name": "pad", "arguments": map[string]interface{}{"nonce": nonce, "pad": pad, "ask": ask}}})
 	return b
 }
 
@@ -222,11 +239,17 @@ func execC09StdioServer(c C09Case) *Failure {
 		go func() { done <- mcp.VerifServeStdio(ctx, w.Stdio, pr, ctlWriter{out, ctl}) }()
 		var input bytes.Buffer
 		for i := 0; i < c.Writers; i++ {
-			input.Write(padRequest(fmt.Sprintf("%d", i+1), nonces[i], padOf(c, i)))
+			input.Write(padRequestAsk(fmt.Sprintf("%d", i+1), nonces[i], padOf(c, i), i%3 == 1))
 			input.WriteByte('\n')
 		}
 		pw.Write(input.Bytes())
-		ok := out.WaitLines(c.Writers, Bound()*8)
+		asks := 0
+		for i := 0; i < c.Writers; i++ {
+			if i%3 == 1 {
+				asks++
+			}
+		}
+		ok := out.WaitLines(c.Writers+asks, Bound()*8)
 		out.WaitQuiet(5*time.Millisecond, 200*time.Millisecond)
 		pw.Close()
 		cancel()
@@ -242,7 +265,16 @@ func execC09StdioServer(c C09Case) *Failure {
 			if err := json.Unmarshal(l, &m); err != nil {
 				return Failf("C09/stdio-server/glued-or-torn-line", "%s: line %d does not parse on its own (%v): %.200q", where, li, err, l)
 			}
+			if _, isReq := m["method"]; isReq {
+				seen["request"]++
+				continue
+			}
 			seen[string(m["id"])]++
+		}
+		if seen["request"] != asks {
+			f := Failf("C09/stdio-server/message-multiset", "%s: %d server-issued roots/list requests recovered, %d were issued", where, seen["request"], asks)
+			f.Timing = true
+			return f
 		}
 		if len(rest) != 0 {
 			return Failf("C09/stdio-server/unterminated", "%s: output ends with an unterminated frame %.100q", where, rest)
@@ -286,6 +318,14 @@ func execC09GetStream(c C09Case) *Failure {
 		go func(i int) {
 			defer wg.Done()
 			for r := 0; r < c.Rounds; r++ {
+				if i%3 == 1 {
+					// a server-issued request on the same stream (nobody answers; the short deadline ends it)
+					rctx, cancel := context.WithTimeout(context.Background(), 20*time.Millisecond)
+					w.Srv.SendRequest(rctx, conn.SessionID, &mcp.JSONRPCRequest{JSONRPC: "2.0", ID: fmt.Sprintf("req-%s%d", nonces[i], r), Request: mcp.Request{Method: "verif/request"},
+						Params: map[string]interface{}{"nonce": fmt.Sprintf("%s%d", nonces[i], r), "pad": padOf(c, i)}})
+					cancel()
+					continue
+				}
 				if e := w.Srv.SendNotification(conn.SessionID, "notifications/verif", map[string]interface{}{"nonce": fmt.Sprintf("%s%d", nonces[i], r), "pad": padOf(c, i)}); e != nil {
 					errs[i] = e
 				}
